@@ -311,6 +311,24 @@ func c10Worker(c *mc.Ctx) {
 			}
 		}
 	}
+	// non-greedy rules: the flag word of a row (stop consuming here) is part of
+	// the table; every 5th specification of C08's family (thorough: all)
+	step := int64(5)
+	if !c.Quick() {
+		step = 1
+	}
+	for i, cs := range c08Specs(c.Quick()) {
+		if int64(i)%step != 0 || !c.Mine(int64(i)/step) {
+			continue
+		}
+		for _, v := range c08One(ws, int64(i), cs.spec, 3, &c.Stats) {
+			if v.Property == "C08" {
+				v.Property = "C10"
+			}
+			v.Check = "C10"
+			c.Stats.Violate(v)
+		}
+	}
 	c10Real(c, ws, "C10")
 	c10TableRoundTrip(c)
 	// Parser side: decoded arrays equal the automaton object exactly.
@@ -366,6 +384,18 @@ func c10Replay(raw json.RawMessage) *mc.Violation {
 		return &mc.Violation{Property: "C10", Kind: "bad-replay", Detail: err.Error()}
 	}
 	if probe.Spec != nil {
+		var lc lexCase
+		if json.Unmarshal(raw, &lc); lc.Family == "ng" {
+			// a specification of the non-greedy family: the reference needs its semantics
+			v := c08Replay(raw)
+			if v != nil {
+				if v.Property == "C08" {
+					v.Property = "C10"
+				}
+				v.Check = "C10"
+			}
+			return v
+		}
 		return lexReplay("C10", func(*lexref.Compiled) (bool, string) { return true, "" })(raw)
 	}
 	var real struct {
